@@ -1164,10 +1164,16 @@ func (r *runningStep) deployStage() (deployer.Plugin, bool, error) {
 	default: // Default, so it doesn't block on this receive
 		// It's waiting now, unless the input has been provided in the meantime.
 		r.lock.Lock()
-		if !r.deployInputAvailable {
+		nowWaiting := !r.deployInputAvailable
+		if nowWaiting {
 			r.state = step.RunningStepStateWaitingForInput
 		}
 		r.lock.Unlock()
+		if nowWaiting {
+			// Announce the wait, so that the workflow can check if it is stuck: the announcement above was
+			// made while this step still counted as running.
+			r.stageChangeHandler.OnStageChange(r, nil, nil, nil, string(StageIDDeploy), false, &r.wg)
+		}
 		select {
 		case deployerConfig = <-r.deployInput:
 			r.lock.Lock()
